@@ -156,6 +156,34 @@ def convert (cvD cvI : Nat → Nat) (c : Container) : Container :=
   { scalarIndex := c.scalarIndex, scalarDt := c.scalarDt.map cvD,
     elements := c.elements.map (·.map cvD), indices := c.indices.map (·.map cvI) }
 
+/-! ### the stream overload `_deserialize(FileMode, std::istream&)`: a stream is a byte list and a position -/
+
+/-- peek the record size at `pos`, step back (relative `seekg`), read exactly that many bytes, deserialise them;
+    returns the container and the new stream position.  `none` = short read (`!file.good()`) or a failing
+    `_deserialize` of the record -/
+def readFrom (magic sDT sIT : Nat) (buf : Bytes) (pos : Nat) : Option (Container × Nat) :=
+  if pos + leNat ((buf.drop pos).take 8) ≤ buf.length ∧ pos + 8 ≤ buf.length then
+    match deserialize magic sDT sIT ((buf.drop pos).take (leNat ((buf.drop pos).take 8))) with
+    | some c => some (c, pos + leNat ((buf.drop pos).take 8))
+    | none => none
+  else none
+
+/-- reading several records one after the other -/
+def readAll (sDT sIT : Nat) (buf : Bytes) : List Nat → Nat → Option (List Container × Nat)
+  | [], pos => some ([], pos)
+  | magic :: ms, pos =>
+    match readFrom magic sDT sIT buf pos with
+    | none => none
+    | some (c, pos') =>
+      match readAll sDT sIT buf ms pos' with
+      | none => none
+      | some (cs, p) => some (c :: cs, p)
+
+/-- writing several containers one after the other (`write_out(fm_binary, stream)` appends the image) -/
+def writeAll (sDT sIT : Nat) : List (Tag × Container) → Bytes
+  | [] => []
+  | (t, c) :: rest => (serialize t sDT sIT c).getD [] ++ writeAll sDT sIT rest
+
 /-! ### decidable hypotheses of the round-trip theorems (evaluated by the driver on every case) -/
 
 /-- `WF` as a Boolean check -/
